@@ -12,7 +12,7 @@ for p in "$@"; do
   if [ "$p" = "C20" ]; then
     C20_MODELS_DIR=$wt/formal-models C20_EVIDENCE=$ev/C20.json C20_REPLAYS=$ev/replays tla/check_c20.sh quick >$ev/out.txt 2>&1; rc=$?
   else
-    bin/govc check -prop $p -tier quick -repo $wt -verif $ev -known /verif/known_findings.txt >$ev/out.txt 2>&1; rc=$?
+    ${GOVC:-bin/govc} check -prop $p -tier quick -repo $wt -verif $ev -known /verif/known_findings.txt >$ev/out.txt 2>&1; rc=$?
   fi
   echo "== $tag vs $p exit=$rc"
   grep -E "^VIOLATION|^UNDECIDED|^property=|engine error" $ev/out.txt | cut -c1-300
